@@ -920,16 +920,13 @@ public:
 
     void enable_edge_bottom_up_incidences(bool _enable = true) {
 
+        bool updateOrder = false;
         if(_enable && !e_bottom_up_) {
             // Edge bottom-up incidences have to be
             // recomputed for the whole mesh
             compute_edge_bottom_up_incidences();
 
-            if(f_bottom_up_) {
-                for (const auto &eh: edges()) {
-                    reorder_incident_halffaces(eh);
-                }
-            }
+            updateOrder = true;
         }
 
         if(!_enable) {
@@ -937,6 +934,14 @@ public:
         }
 
         e_bottom_up_ = _enable;
+
+        if(updateOrder) {
+            if(f_bottom_up_) {
+                for (const auto &eh: edges()) {
+                    reorder_incident_halffaces(eh);
+                }
+            }
+        }
     }
 
     void enable_face_bottom_up_incidences(bool _enable = true) {
